@@ -288,6 +288,23 @@ func stepFamily(isCtx bool) *family {
 		if isCtx {
 			vary("forwarded-header-value", func(i *Input) { i.Headers["X-Tenant"] = "t2" })
 			vary("forwarded-cookie-value", func(i *Input) { i.Cookies["session"] = "s2" })
+
+			// the same value presented in another slot (the other slot absent): must not share a result
+			slot := func(kind string, fa, fb func(i *Input)) {
+				ia, ib := in.clone(), in.clone()
+				fa(&ia)
+				fb(&ib)
+				emit(kind, base, base, ia, ib)
+			}
+			slot("forwarded-value-moved-to-other-header",
+				func(i *Input) { i.Headers = map[string]string{"X-Tenant": "same"} },
+				func(i *Input) { i.Headers = map[string]string{"X-Trace": "same"} })
+			slot("forwarded-value-moved-to-other-cookie",
+				func(i *Input) { i.Cookies = map[string]string{"session": "same"} },
+				func(i *Input) { i.Cookies = map[string]string{"pref": "same"} })
+			slot("forwarded-value-moved-from-header-to-cookie",
+				func(i *Input) { i.Headers = map[string]string{"X-Tenant": "same"}; i.Cookies = map[string]string{} },
+				func(i *Input) { i.Headers = map[string]string{}; i.Cookies = map[string]string{"session": "same"} })
 		}
 
 		emit("values-entry", p.with(merge(baseOv(sc), m("values", m("v1", "ea")))), p.with(merge(baseOv(sc), m("values", m("v1", "eb")))), in, in)
@@ -305,6 +322,19 @@ func stepFamily(isCtx bool) *family {
 			emit("rule-level-override(expressions:none->allow-required)", base, p.with(merge(baseOv(sc), allow)), in, in)
 			emit("rule-level-override(expressions:none->deny-required)", base, p.with(merge(baseOv(sc), deny)), in, in)
 			emit("rule-level-override(expressions:allow-required->deny-required)", p.with(merge(baseOv(sc), allow)), p.with(merge(baseOv(sc), deny)), in, in)
+
+			// expressions configured in the catalogue: a rule redefining them primes the cache, a rule using the
+			// catalogue's expressions unchanged is judged (and the other way round)
+			withProtoExpr := func(e map[string]any) MechSpec {
+				q := p
+				q.Config = merge(p.Config, e)
+
+				return q
+			}
+			pDeny, pAllow := withProtoExpr(deny), withProtoExpr(allow)
+			emit("rule-level-override(expressions:rule-allow-required->catalogue-deny-required)", pDeny.with(merge(baseOv(sc), allow)), pDeny.with(baseOv(sc)), in, in)
+			emit("rule-level-override(expressions:rule-deny-required->catalogue-allow-required)", pAllow.with(merge(baseOv(sc), deny)), pAllow.with(baseOv(sc)), in, in)
+			emit("rule-level-override(expressions:catalogue-deny-required->rule-allow-required)", pDeny.with(baseOv(sc)), pDeny.with(merge(baseOv(sc), allow)), in, in)
 		}
 
 		// boundary shifted values: key "ab" value "c" versus key "a" value "bc"; two endpoint headers read them
@@ -469,6 +499,20 @@ func genericAuthnFamily() *family {
 		vary("credential", func(i *Input) { i.Credential = "opaque:tokB" })
 		vary("forwarded-header-value", func(i *Input) { i.Headers["X-Tenant"] = "t2" })
 		vary("forwarded-cookie-value", func(i *Input) { i.Cookies["session"] = "s2" })
+
+		slot := func(kind string, fa, fb func(i *Input)) {
+			ia, ib := in.clone(), in.clone()
+			fa(&ia)
+			fb(&ib)
+			emit(kind, base, base, ia, ib)
+		}
+		slot("forwarded-value-moved-to-other-header",
+			func(i *Input) { i.Headers = map[string]string{"X-Tenant": "same"} },
+			func(i *Input) { i.Headers = map[string]string{"X-Trace": "same"} })
+		slot("forwarded-value-moved-from-header-to-cookie",
+			func(i *Input) { i.Headers = map[string]string{"X-Tenant": "same"}; i.Cookies = map[string]string{} },
+			func(i *Input) { i.Headers = map[string]string{}; i.Cookies = map[string]string{"session": "same"} })
+
 		vary("request-field(url-path)", func(i *Input) { i.URL = "https://app.local/orders/8?x=1" })
 		emit("rule-level-override(cache_ttl)", base, p.with(merge(baseOv(sc), m("cache_ttl", "45s"))), in, in)
 
